@@ -68,6 +68,11 @@ def set_push_rules(rep, F, sets, elems):
                 m = re.match(r"std::vec::Vec<std::rc::Rc<(.+)>>$", dty)
                 if m and m.group(1) in elems:
                     rep.inst("SET-build")
+                    filt_ins = to.endswith("Iterator::collect") and any(
+                        any(k.to and re.search(r"std::collections::(BTreeSet|HashSet)::<T.*>::insert$", k.to) for k in F.calls(cl))
+                        for cl in F.fns if cl.startswith(fid.split("::{closure")[0] + "::{closure")) and any((k.to or "").endswith("Iterator::filter") for k in F.calls(fid))
+                    if filt_ins:
+                        continue  # `.filter(|rc| dedup.insert(rc.clone())).collect()`: the guarded push in iterator form
                     if not (to.endswith(("Vec::<T>::new", "Vec::<T>::with_capacity", "Clone>::clone")) or to.endswith("::clone")):
                         rep.violation("SET-build", "%s|%s" % (key, to), "%s builds an element vector of a set type with %s instead of guarded pushes: duplicates or a different order can enter the set (%s)" % (key, to, facts.loc_str(c.loc, fn)), {"function": fid, "elem": m.group(1)})
             if not to.startswith("std::vec::Vec::<T"):
